@@ -31,7 +31,7 @@ use std::collections::{BTreeMap, HashMap, HashSet};
 use std::path::{Path, PathBuf};
 use vkit::acct::{
     account_view, folder_key_sorted, vault_view_cached, AccountView, Backend,
-    Dev, KeyCache, PASSWORD, PASSWORD2,
+    reference_reduce, Dev, KeyCache, PASSWORD, PASSWORD2,
 };
 use vkit::pool::{self, PoolOpts};
 use vkit::run::{push_sample, Args, Run, Tier};
@@ -717,41 +717,6 @@ async fn check_view(
             None
         }
     }
-}
-
-/// Independent reference reducer over decoded events (specification:
-/// the creation event fixes the header; last name / flags / meta wins;
-/// create and update insert, delete removes).
-async fn reference_reduce(events: &[WriteEvent]) -> Result<Vault> {
-    let mut it = events.iter();
-    let mut vault: Vault = match it.next() {
-        Some(WriteEvent::CreateVault(b)) => decode(b).await?,
-        _ => return Err(anyhow!("log does not start with CreateVault")),
-    };
-    let mut entries: Vec<(SecretId, sos_core::VaultCommit)> = vec![];
-    for e in it {
-        match e {
-            WriteEvent::SetVaultName(n) => vault.set_name(n.clone()),
-            WriteEvent::SetVaultFlags(f) => *vault.flags_mut() = f.clone(),
-            WriteEvent::SetVaultMeta(m) => {
-                vault.header_mut().set_meta(Some(m.clone()))
-            }
-            WriteEvent::CreateSecret(id, c)
-            | WriteEvent::UpdateSecret(id, c) => {
-                if let Some(x) = entries.iter_mut().find(|x| x.0 == *id) {
-                    x.1 = c.clone();
-                } else {
-                    entries.push((*id, c.clone()));
-                }
-            }
-            WriteEvent::DeleteSecret(id) => entries.retain(|x| x.0 != *id),
-            _ => {}
-        }
-    }
-    for (id, c) in entries {
-        vault.insert_entry(id, c);
-    }
-    Ok(vault)
 }
 
 async fn mirror_vault(dev: &Dev, id: &VaultId) -> Result<Vault> {
